@@ -46,7 +46,7 @@ theorem phase_upd (hp : Phase y p) (u : LocalUpd p.a e' i o' em dq)
     (hem : ∀ m ∈ em, Msg.flow? m = some y ∧ m.isConnect = false)
     (hS : ∀ oR fwd bwd r eof l, DirRel o oR fwd bwd (p.ga.wlog i) r eof l →
             ∃ l', DirRel o' oR (fwd ++ em) bwd (g'.wlog i) r eof l')
-    (hR : ∀ oS fwd bwd w l, DirRel oS o fwd bwd w (p.ga.rlog i) (p.ga.eof i) l →
+    (hR : ¬ y ∈ dq → ∀ oS fwd bwd w l, DirRel oS o fwd bwd w (p.ga.rlog i) (p.ga.eof i) l →
             ∃ l', DirRel oS o' fwd (bwd ++ em) w (g'.rlog i) (g'.eof i) l')
     (hHalf : o.rxq = [] → o.buf = [] → o.recvdSince = 0 → o.senderAlive = true →
             o'.rxq = [] ∧ o'.buf = [] ∧ o'.recvdSince = 0 ∧ o'.senderAlive = true ∧ ∀ m ∈ em, ackOf m = none)
@@ -134,7 +134,8 @@ theorem phase_upd (hp : Phase y p) (u : LocalUpd p.a e' i o' em dq)
     rw [hwl0] at d1
     rw [hrl0, hel0] at d2
     obtain ⟨l1', d1'⟩ := hS _ _ _ _ _ _ d1
-    obtain ⟨l2', d2'⟩ := hR _ _ _ _ _ d2
+    have hnd : ¬ y ∈ dq := fun hh => hda (by show y ∈ e'.droppedq; rw [u.dq]; exact List.mem_append_right _ hh)
+    obtain ⟨l2', d2'⟩ := hR hnd _ _ _ _ _ d2
     rw [hwl, hrl, hel]
     exact ⟨⟨l1', d1'⟩, ⟨l2', d2'⟩⟩
   · -- dead
